@@ -121,6 +121,28 @@ func c12genLine(r *h.Rand) orb.LineString {
 			return ls
 		}
 	}
+	if r.P(1, 40) {
+		// shapes on which the farthest vertex of every range sits next to the range's start, so that the recursion of
+		// Douglas-Peucker gets as deep as the line is long: a zigzag of decaying amplitude, an inward spiral
+		m := r.Range(70, 400)
+		ls := make(orb.LineString, m)
+		amp, decay := r.Uniform(50, 500), r.Uniform(0.93, 0.995)
+		spiral := r.Bool()
+		for i := range ls {
+			if spiral {
+				a := float64(i) * r.Uniform(0.5, 0.7)
+				ls[i] = orb.Point{amp * math.Cos(a), amp * math.Sin(a)}
+			} else {
+				s := 1.0
+				if i%2 == 1 {
+					s = -1
+				}
+				ls[i] = orb.Point{float64(i), s * amp}
+			}
+			amp *= decay
+		}
+		return ls
+	}
 	n := r.Range(0, 40)
 	if r.P(1, 10) {
 		n = r.Range(40, 200)
